@@ -447,6 +447,20 @@ func (ex *Exec) builtin(name string, args []Value, fr *Frame, pos token.Pos, ins
 	case "close":
 		ex.chanClose(fr, args[0].(*ChanObj), pos)
 		return nil
+	case "SliceData":
+		// unsafe.SliceData: the slice itself stands for the pointer to its first element
+		return args[0]
+	case "String":
+		// unsafe.String(ptr, len) on a pointer obtained from unsafe.SliceData
+		if sl, ok := args[0].(SliceV); ok {
+			n := ex.concInt(args[1], "unsafe.String len")
+			if n > sl.n {
+				n = sl.n
+			}
+			return ex.bytesToStr(SliceV{arr: sl.arr, off: sl.off, n: n, cp: n, nonNil: true}, types.NewSlice(types.Typ[types.Uint8]))
+		}
+	case "StringData":
+		return ex.strToBytes(args[0].(StrV), types.NewSlice(types.Typ[types.Uint8]))
 	}
 	panic(unsupported{"builtin " + name})
 }
